@@ -398,12 +398,11 @@ func init() {
 			k := 0
 			// the function itself, its closures, and same-package helpers it calls (the error response may be built by a helper)
 			scope := append([]*ssa.Function{}, withAnons(f)...)
-			for _, g := range withAnons(f) {
-				for _, s := range sitesOf(g) {
-					if s.Callee != nil && s.Callee.Pkg == f.Pkg && len(s.Callee.Blocks) > 0 && s.Callee.Name() != "handleRequest" && s.Callee.Signature.Results().Len() == 1 && isNamed(s.Callee.Signature.Results().At(0).Type(), "jsonrpc", "response") {
-						scope = append(scope, s.Callee)
-					}
+			for _, g := range samePkgScope(f, 2) {
+				if g == f || g.Name() == "handleRequest" || g.Name() == "HandleReader" || g.Name() == "handleBatchRequest" {
+					continue
 				}
+				scope = append(scope, withAnons(g)...)
 			}
 			for _, g := range scope {
 				allInstrs(g, func(in ssa.Instruction) {
@@ -460,6 +459,37 @@ func c11BatchAndParams(c *Ctx) {
 								ok = false
 							}
 						}
+					}
+					// the task may delegate to a same-package helper that runs handleRequest on each of its paths
+					var viaHelper *deepSite
+					if hr == nil {
+						for _, ds := range p.deepSites(task, nameMatcher("handleRequest"), 2) {
+							if len(ds.Chain) == 0 {
+								continue
+							}
+							outer := ds.Chain[0]
+							okH := true
+							for _, ret := range returnsOf(task) {
+								if !dominatesInstr(outer.Instr, ret.Ret) {
+									okH = false
+								}
+							}
+							inner := ds.Site
+							for _, hret := range returnsOf(inner.Fn) {
+								if !dominatesInstr(inner.Instr, hret.Ret) {
+									okH = false
+								}
+							}
+							if okH {
+								d := ds
+								viaHelper = &d
+								ok = true
+								hr = &d.Site
+							}
+						}
+					}
+					if viaHelper != nil {
+						task = viaHelper.Site.Fn // the response is handed on inside the helper
 					}
 					c.check(ok, "batch-every-entry", "handleBatchRequest pool task", p.Pos(fnPos(task)), "handleRequest dominates every return of the task", "a batch entry's task can finish without calling handleRequest: the entry gets no response and its handler never runs (e.g. entries still queued when the shared deadline expires)")
 					// the response returned by handleRequest is handed on (to the collecting closure / method) by the task
